@@ -670,6 +670,24 @@ fn do_extract(args: &BTreeMap<String, String>) -> Result<(), String> {
                         *s = Sub::Contract(t);
                     }
                 }
+                // merge several contract chunks (e.g. shared file + unit-local extra clauses) into one
+                {
+                    let mut merged = String::new();
+                    let mut first: Option<usize> = None;
+                    for (i, s) in take_owned.subs.iter().enumerate() {
+                        if let Sub::Contract(t) = s {
+                            if first.is_none() { first = Some(i); }
+                            merged.push_str(t);
+                            if !merged.ends_with('\n') { merged.push('\n'); }
+                        }
+                    }
+                    if let Some(fi) = first {
+                        let mut k = 0;
+                        take_owned.subs.retain(|s| { let keep = !matches!(s, Sub::Contract(_)) || { k += 1; k == 1 }; keep });
+                        let pos = take_owned.subs.iter().position(|s| matches!(s, Sub::Contract(_))).unwrap_or(fi);
+                        take_owned.subs[pos] = Sub::Contract(merged);
+                    }
+                }
                 let take = &take_owned;
                 let found = find_item(&src.file, &take.sel)?;
                 if let Some(exp) = &take.expect {
